@@ -5,7 +5,7 @@ from __future__ import annotations
 import ast
 import re
 
-from ..astutil import attr_chain, call_attr, calls_in, guard_facts, unparse, walk_local, text_facts
+from ..astutil import attr_chain, call_attr, calls_in, guard_facts, inline_chain_aliases, unparse, walk_local, text_facts
 from ..cfg import CFG
 from ..dataflow import reaching_defs, resolved_text
 from ..report import Finding, Report
@@ -303,6 +303,25 @@ def check(idx: Index, rep: Report, tier: str) -> str:
                 kws.update({kk.value: vv for kk, vv in zip(d_.keys, d_.values)})  # type: ignore[union-attr]
             else:
                 raise AnalysisError(f"{wiring.fq}: keyword table `**{unparse(k.value)}` of the listener construction not understood")
+    # lists filled after the construction: `<listener>.<field>.extend(xs)` / `.append(x)` / `+= xs` on the constructed object
+    filled: dict[str, list[str]] = {}
+    wn = inline_chain_aliases(wiring.node)
+    lname = None
+    for st in walk_local(wn):
+        if isinstance(st, (ast.Assign, ast.AnnAssign)) and isinstance(st.value, ast.Call) and call_attr(st.value) == "PatternRewriterListener":
+            tg = st.targets[0] if isinstance(st, ast.Assign) else st.target
+            if isinstance(tg, ast.Name):
+                lname = tg.id
+    if lname is not None:
+        for n in walk_local(wn):
+            if isinstance(n, ast.Call) and isinstance(n.func, ast.Attribute) and n.func.attr in ("extend", "append") and len(n.args) == 1:
+                m = re.fullmatch(rf"{re.escape(lname)}\.(\w+)", unparse(n.func.value))
+                if m:
+                    filled.setdefault(m.group(1), []).append(("*" if n.func.attr == "extend" else "") + unparse(n.args[0]))
+            elif isinstance(n, ast.AugAssign) and isinstance(n.op, ast.Add):
+                m = re.fullmatch(rf"{re.escape(lname)}\.(\w+)", unparse(n.target))
+                if m:
+                    filled.setdefault(m.group(1), []).append("*" + unparse(n.value))
     for cls, fld in fields:
         inst = f"{cls.name}.{fld}"
         problems = []
@@ -317,10 +336,14 @@ def check(idx: Index, rep: Report, tier: str) -> str:
         if cls is pl and ext is not None and not any(unparse(c.func) == "super().extend_from_listener" for c in calls_in(ext.node)):
             problems.append(("no-super", "PatternRewriterListener.extend_from_listener does not call the base class forwarder"))
         v = kws.get(fld)
-        if v is None:
+        t = None
+        if v is not None:
+            t = resolved_text(wcfg, v, wcfg.node_of(ctor[0]))
+        elif fld in filled:
+            t = " + ".join(filled[fld])
+        if t is None:
             problems.append(("not-wired", f"the walker's listener does not receive {fld}"))
         else:
-            t = resolved_text(wcfg, v, wcfg.node_of(ctor[0]))
             if f"self.listener.{fld}" not in t:
                 problems.append(("user-listener-dropped", f"callbacks of the user-supplied listener for {fld} are not included"))
             if fld.startswith("operation_") and f"self._handle_{stem}" not in t:
